@@ -5,8 +5,9 @@ text, categorical and numeric data x formulas x output types x materializers.
 Oracle (statement + docsite guides: default coding is Treatment with the first level as reference,
 terms ordered by degree, `a:b` is the row-wise product):
   text        -> indicator columns, one per distinct value, in *sorted* order of the values;
-  categorical -> indicator columns in the *declared* category order (all declared categories occur
-                 in the data, so nothing is said here about unobserved categories);
+  categorical -> indicator columns in the *declared* category order; a declared category that never
+                 occurs keeps its position as an all-zero column; the same holds when the column is
+                 wrapped in C(...) with any built-in coding (treatment, sum);
   numeric     -> the column itself (as float; exact), products with w to rtol 1e-6 (float32 inputs);
   every cell  -> a number (int / float / bool scalar; never str / None / other objects).
 bool: the statement lists bool with the numeric dtypes but no guide says how a bool column is
@@ -61,6 +62,20 @@ for ordered in (False, True):
          f"pd.Series(pd.Categorical({ICAT!r}, categories={ICAT_DECLARED!r}, ordered={ordered}))",
          f"pa.DictionaryArray.from_arrays(pa.array({icodes!r}, type=pa.int8()), pa.array({ICAT_DECLARED!r}, type=pa.int64()), ordered={ordered})",
          ICAT, ICAT_DECLARED)
+# categorical dtype with a declared level that never occurs (gets an all-zero indicator in its declared
+# position; the missing-data guide shows exactly this for `C[T.d]`)
+CAT_UNOBS = ["c", "d", "a", "b"]
+_codes_u = [CAT_UNOBS.index(v) for v in TEXT]
+_add("category(str, unobserved level)", "cat",
+     f"pd.Series(pd.Categorical({TEXT!r}, categories={CAT_UNOBS!r}))",
+     f"pa.DictionaryArray.from_arrays(pa.array({_codes_u!r}, type=pa.int8()), pa.array({CAT_UNOBS!r}))",
+     TEXT, CAT_UNOBS)
+ICAT_UNOBS = [3, 7, 1, 2]
+_icodes_u = [ICAT_UNOBS.index(v) for v in ICAT]
+_add("category(int, unobserved level)", "cat",
+     f"pd.Series(pd.Categorical({ICAT!r}, categories={ICAT_UNOBS!r}))",
+     f"pa.DictionaryArray.from_arrays(pa.array({_icodes_u!r}, type=pa.int8()), pa.array({ICAT_UNOBS!r}, type=pa.int64()))",
+     ICAT, ICAT_UNOBS)
 for bits in (8, 16, 32, 64):
     _add(f"int{bits}", "num", f"pd.Series({INTS!r}, dtype='int{bits}')", f"pa.array({INTS!r}, type=pa.int{bits}())", INTS)
     _add(f"uint{bits}", "num", f"pd.Series({INTS!r}, dtype='uint{bits}')", f"pa.array({INTS!r}, type=pa.uint{bits}())", INTS)
@@ -78,6 +93,10 @@ _add("int64[pyarrow] via ArrowDtype", "num", f"pd.Series({INTS!r}, dtype=pd.Arro
 _add("double[pyarrow] via ArrowDtype", "num", f"pd.Series({FLOATS!r}, dtype=pd.ArrowDtype(pa.float64()))", None, FLOATS)
 
 FORMULAS = ("0 + v", "v", "0 + v:w", "v + w + v:w")
+# explicit-coding spellings of the same column: whatever the coding, the level order must be the declared
+# order (categorical dtype) / sorted order (text).  Only for the text / categorical dtypes: C(<numeric>) is a
+# request to treat numbers as categories, which the statement does not speak about.
+C_FORMULAS = ("0 + C(v)", "C(v)", "C(v, contr.treatment)", "C(v, contr.sum)", "0 + C(v):w")
 
 # materializer name -> (data source given `v_pd` / `v_pa`, outputs)
 MATERIALIZERS = {
@@ -110,12 +129,15 @@ def expected(dt, formula):
         v = np.array(values, dtype=float)
         return {"0 + v": [v], "v": [one, v], "0 + v:w": [v * w], "v + w + v:w": [one, v, w, v * w]}[formula]
     ind = [np.array([1.0 if x == lv else 0.0 for x in values]) for lv in levels]
-    if formula == "0 + v":
+    if formula in ("0 + v", "0 + C(v)"):
         return ind
-    if formula == "v":
+    if formula in ("v", "C(v)", "C(v, contr.treatment)"):
         return [one] + ind[1:]
-    if formula == "0 + v:w":
+    if formula in ("0 + v:w", "0 + C(v):w"):
         return [i * w for i in ind]
+    if formula == "C(v, contr.sum)":
+        # sum (deviation) coding, contrasts guide: one column per level but the last; rows of the last level are -1
+        return [one] + [i - ind[-1] for i in ind[:-1]]
     return [one] + ind[1:] + [w] + [i * w for i in ind[1:]]
 
 
@@ -161,7 +183,9 @@ def run_bounded(ctx):
         "ordered by degree and `a:b` columns are row-wise products (grammar guide); only used to lay out expected matrices",
         "A-C08-bool: nothing is documented for bool columns beyond the statement listing bool among the dtypes; for bool "
         "only 'every cell is a number' is checked (a bool scalar counts as a number)",
-        "A-C08-levels-observed: every declared category occurs in the data; lowercase ASCII text, so 'sorted' is unambiguous",
+        "A-C08-unobserved: a declared category that never occurs keeps its declared position as an all-zero indicator (as the "
+        "missing-data guide shows for `C[T.d]`); lowercase ASCII text, so 'sorted' is unambiguous",
+        "A-C08-sum-coding: `C(v, contr.sum)` = intercept + one column per level but the last, rows of the last level -1 (contrasts guide)",
         "A-C08-float: pass-through columns compared exactly after conversion to float64, products to rtol=1e-6 (float32 inputs)",
     )
     import pyarrow as pa  # noqa: F401  (fail loudly if the environment lacks it)
@@ -170,10 +194,10 @@ def run_bounded(ctx):
     with ctx.bounded(
         "dtype-table",
         rule=f"one 6-row frame per dtype ({len(dtypes)} dtypes: object, str, string[python|pyarrow], (large_)string via ArrowDtype, "
-        "category ordered/unordered with str/int categories in non-sorted declared order, int8-64, uint8-64, float32/64, bool, "
+        "category ordered/unordered with str/int categories in non-sorted declared order and with an unobserved declared level, int8-64, uint8-64, float32/64, bool, "
         "nullable Int64/Float64/boolean"
         + (", further nullable widths, arrow-backed int64/double" if ctx.thorough else "")
-        + f") x formulas {list(FORMULAS)} x materializers (pandas; narwhals on pandas; narwhals on a pyarrow Table where the "
+        + f") x formulas {list(FORMULAS)} (text / categorical dtypes also {list(C_FORMULAS)}) x materializers (pandas; narwhals on pandas; narwhals on a pyarrow Table where the "
         "dtype exists) x every output type of the materializer; all cases are non-trivial",
         exhaustive=True,
         bound="the listed dtype set; one fixed 6-row value vector per dtype group",
@@ -184,7 +208,7 @@ def run_bounded(ctx):
             for mat, (_, outputs) in MATERIALIZERS.items():
                 if mat == "narwhals(pyarrow)" and pa_src is None:
                     continue
-                for formula in FORMULAS:
+                for formula in FORMULAS + (C_FORMULAS if group in ("text", "cat") else ()):
                     for out in outputs:
                         key = (name, mat, formula, out)
                         b.case(key, nontrivial=True, sample={"dtype": name, "materializer": mat, "formula": formula, "output": out})
@@ -270,7 +294,7 @@ def _one(rep, dt, mat, formula, out):
         rtol = 0.0 if formula in ("0 + v", "v") else 1e-6
         code = (src + f"res = model_matrix({formula!r}, data, output={out!r})\n"
                 + f"EXPECTED = {None if exp is None else [e.tolist() for e in exp]!r}\nRTOL = {rtol}\n" + _CHECK_SRC)
-        cls = f"{name} | {mat}"
+        cls = f"{name} | {mat}" + (" | via C()" if "C(" in formula else "")
         wit = {"dtype": name, "materializer": mat, "formula": formula, "output": out, "code": code}
         try:
             res = model_matrix(formula, data, output=out)
